@@ -359,7 +359,7 @@ def shipped_cases(ev, root, tier, findings):
 def main(tier, seed):
     setup()
     workers = max(2, min(12, common.NPROC - 2))
-    n_ex = 45 if tier == "quick" else 450
+    n_ex = 60 if tier == "quick" else 500
     findings = common.Findings(c17run.findings_path())
     return c17run.run(PROP, "exploration", RULE, tier, seed, make_strategy, case, confirm, replay_files, workers, n_ex,
                       min_cases=workers * n_ex * 4,
